@@ -67,6 +67,12 @@ def numeric_deviations(base: dict):
     for b in range(len(base["blocks"])):
         for k in range(len(base["blocks"][b]["rules"])):
             out.append(("disabled-rule", f"block{b}.rule{k}.enabled=False", D._set(("blocks", b, "rules", k, "enabled"), False)))
+            # ... under activation methods that count / normalise over the loaded rules
+            for act in (["Proportional"], ["First", 1, 0.0], ["Highest", 1]):
+                def both(r, b=b, k=k, act=act):
+                    r["blocks"][b]["rules"][k]["enabled"] = False
+                    r["blocks"][b]["activation"] = list(act)
+                out.append(("disabled-rule", f"block{b}.rule{k}.enabled=False+{act[0]}", both))
     return out
 
 
@@ -188,9 +194,22 @@ def standalone_components():
             ("term", fl.Trapezoid("t", 0.0, NAN, 1.0, NAN))]
     out.append(("aggregated", fl.Aggregated("o", -1.0, 1 / 3, fl.Maximum(), [fl.Activated(fl.Constant("k", 1.5), 0.5, fl.AlgebraicProduct())])))
     out.append(("aggregated", fl.Aggregated("o", NAN, INF, None, [])))
+    # empty containers (falsy: they define __len__)
+    out += [("engine-variable", fl.InputVariable("empty")), ("engine-variable", fl.OutputVariable("empty")), ("rule-block", fl.RuleBlock("empty")),
+            ("rule-block", fl.RuleBlock("norules", "d", True, fl.Minimum(), fl.Maximum(), fl.AlgebraicProduct(), fl.General(), []))]
+    # numpy single / half precision scalars as parameters (incl. infinite and NaN ones)
+    import numpy as np
+    for number in (np.float32, np.float16):
+        out += [("engine-variable", fl.InputVariable("v", "", True, number(-INF), number(INF), False, [fl.Triangle("t", number(0.0), number(0.5), number(NAN), number(0.5))])),
+                ("engine-variable", fl.OutputVariable("o", "", True, number(0.0), number(INF), False, False, number(NAN), None, None, [fl.Constant("k", number(NAN))])),
+                ("term", fl.Gaussian("g", number(0.5), number(INF))), ("activation", fl.Threshold(">=", number(INF))), ("activation", fl.First(1, number(0.25)))]
     out.append(("engine-variable", fl.InputVariable("v", "it's a \"quoted\" \\ description", False, -INF, 1 / 3, True, [fl.Ramp("r", 1 / 3, 0.0)])))
     out.append(("engine-variable", fl.OutputVariable("o", "", True, 0.0, 1.0, True, True, 1 / 3, fl.AlgebraicSum(), fl.Centroid(33), [fl.Constant("k", NAN)])))
     return out
+
+
+TYPED = {"engine-variable": "variable", "rule-block": "rule_block", "term": "term", "norm": "norm", "activation": "activation",
+         "defuzzifier": "defuzzifier", "rule": "rule"}
 
 
 def run_components(acc: Acc, comps, label: str) -> None:
@@ -210,9 +229,20 @@ def run_components(acc: Acc, comps, label: str) -> None:
                         want = repr(c)
                         case["repr"] = want
                         acc.case((label, alias, mode, want), nontrivial=True)
-                        code = fl.PythonExporter(formatted=False, encapsulated=(mode == "encapsulated")).to_string(c)
+                        exporter = fl.PythonExporter(formatted=False, encapsulated=(mode == "encapsulated"))
+                        code = exporter.to_string(c)
                         c2 = rebuild(code, import_stmt, mode, None)
                         got = repr(c2)
+                        typed = TYPED.get(kind)
+                        if typed is not None and (kind != "engine-variable" or isinstance(c, (fl.InputVariable, fl.OutputVariable))):
+                            method = typed if kind != "engine-variable" else ("input_variable" if isinstance(c, fl.InputVariable) else "output_variable")
+                            code_t = getattr(exporter, method)(c)
+                            c3 = rebuild(code_t, import_stmt, mode, None)
+                            acc.transitions += 1
+                            if repr(c3) != want or type(c3) is not type(c):
+                                acc.violate("component-repr-differs", {"component": kind, "path": f"PythonExporter.{method}"}, case, want, repr(c3),
+                                            f"{kind} alias={alias!r} {mode}: PythonExporter.{method}() code rebuilds {repr(c3)[:80]!r} instead of {want[:80]!r}")
+                                continue
                     except Exception as ex:  # noqa: BLE001
                         acc.violate("component-code-does-not-run", {"component": kind, "alias": alias or "empty", "error": type(ex).__name__}, case,
                                     "a component", f"{type(ex).__name__}: {ex}", f"{kind} alias={alias!r} {mode}: {type(ex).__name__}: {str(ex)[:120]}")
